@@ -52,6 +52,38 @@ FIXED = [
 ]
 
 
+def walk_model(ctx, decases, stream="walk_model"):
+    """every `de.text` case once more, now against the extracted deserializer walks (TextDeTape /
+    TextDeStream): phase 1 asks the implementation for the canonical tape (tt.parse) and the reader
+    tokens (tr.slice) of each text, phase 2 runs `de.model.text <path> <enc> <shape> <hex> <aux>` on
+    both sides (harness: de.text on the bytes; model: the walk over <aux>)."""
+    texts = sorted(set(c.split("\t")[4] for c in decases))
+    p1 = ["tt.parse\t" + h for h in texts] + ["tr.slice\t" + h for h in texts]
+    out, _ = ctx.correspond(stream + "-phase1", p1, model=False, nontrivial=lambda c, i: i.startswith("ok ") or " END" in i)
+    base = len(out) - len(p1)
+    tape, toks = {}, {}
+    for k, h in enumerate(texts):
+        o = out[base + k]
+        if o.startswith("ok "):
+            parts = o.split(" ", 2)
+            tape[h] = parts[2] if len(parts) > 2 else "-"
+        toks[h] = out[base + len(texts) + k]
+    mcases = []
+    for c in decases:
+        kind, path, enc, sh, h = c.split("\t")
+        if path.startswith("reader:") or path.startswith("freader:"):
+            aux = toks[h]
+            ctx.count("walk_stream")
+        elif h in tape:
+            aux = tape[h]
+            ctx.count("walk_tape")
+        else:
+            ctx.count("walk_skipped_unparsable")      # the tape parser refused the text: C01's subject
+            continue
+        mcases.append("\t".join(["de.model.text", path, enc, sh, h, aux]))
+    ctx.correspond(stream, mcases, nontrivial=lambda c, i: i.startswith("("))
+
+
 def run(ctx):
     rng = ctx.rng
     nt = lambda c, i: i.startswith("(")
@@ -119,6 +151,9 @@ def run(ctx):
         if a != b:
             ctx.fail(key, what + ": %s gives %s, %s gives %s" % (ref, a, dev, b), fcases[2 * j:2 * j + 2], [a, b], a)
 
+
+    # the deserializer walks inside the Coq model: every case above against TextDeTape / TextDeStream
+    walk_model(ctx, cases + fcases)
 
     # scalar level: extracted Serde.text_scalar (typed hints with fall-back) against the real slice path
     from props import descalar
